@@ -38,6 +38,7 @@ import contextlib
 import copy
 import gc
 import io
+import itertools
 import json
 import logging
 import multiprocessing
@@ -509,6 +510,51 @@ def _help(subject, level):
     return build
 
 
+# ---- tables built from another table's format object (fmt_obj= / other.fmt): every member of a
+# group is a table of its own - its rendering must not depend on whether (or in which order) the
+# other members were rendered.  The records differ in width, so shared column state would show.
+
+_LONG_RECORDS = [(1, "a user with quite a long name", "administrator"), (2, "another one", "guest")]
+_SHORT_RECORDS = [(7, "bob", "dev"), (8, "eve", "qa")]
+_MID_RECORDS = [(100200, "middle sized", "ops"), (3, "x", None)]
+
+
+def _group_from_big():
+    big = PPTable(list(_LONG_RECORDS), fields=['id', 'name', 'role'])
+    small = PPTable(list(_SHORT_RECORDS), fmt_obj=big.fmt)
+    third = PPTable(list(_MID_RECORDS), fmt_obj=small.fmt, header="third")
+    return big, small, third
+
+
+def _group_from_small():
+    small = PPTable(list(_SHORT_RECORDS), fields=['id', 'name', 'role'], fmt="id:1-4, name!:2-12, role;1:1")
+    big = PPTable(list(_LONG_RECORDS) + list(_MID_RECORDS) + list(_LONG_RECORDS), fmt_obj=small.fmt)
+    return small, big
+
+
+def _group_enum():
+    first = PPTable(list(_ENUM_RECORDS), fields=['id', 'name', 'status'], fields_types={'status': _enum()},
+                    fmt="id, name:1-9, status/full, status/name")
+    second = PPTable([(123456, "a considerably longer user name", 5), (2, "", None)], fmt_obj=first.fmt)
+    return first, second
+
+
+GROUP_BUILDERS = {'from_big': _group_from_big, 'from_small': _group_from_small, 'enum_pair': _group_enum}
+# member name -> (group, index)
+GROUP_OF = {
+    'shared_big': ('from_big', 0), 'shared_small': ('from_big', 1), 'shared_third': ('from_big', 2),
+    'shared2_small': ('from_small', 0), 'shared2_big': ('from_small', 1),
+    'eshared_first': ('enum_pair', 0), 'eshared_second': ('enum_pair', 1),
+}
+
+
+def _member(name):
+    def build():
+        g, i = GROUP_OF[name]
+        return GROUP_BUILDERS[g]()[i]         # a fresh group; the other members are never rendered
+    return build
+
+
 # name -> (kind, builder, has_enum_column)
 OBJECTS = {
     'pp_py': ('pp', _pp(_PP_PY), False),
@@ -545,8 +591,13 @@ OBJECTS = {
     'help_mc_obj:h': ('help', _help('mc_obj', 1), False),
     'help_mc_bound:h': ('help', _help('mc_bound', 1), False),
 }
+for _n, (_g, _i) in GROUP_OF.items():
+    OBJECTS[_n] = ('table', _member(_n), _g == 'enum_pair')
 OBJECT_NAMES = list(OBJECTS)
+GROUP_MEMBERS = {g: sorted((n for n in GROUP_OF if GROUP_OF[n][0] == g), key=lambda n: GROUP_OF[n][1])
+                 for g in GROUP_BUILDERS}
 ENUM_OBJECTS = [n for n in OBJECT_NAMES if OBJECTS[n][2]]
+CHURN_OBJECTS = [n for n in ENUM_OBJECTS if n not in GROUP_OF]
 
 
 # --------------------------------------------------------------------------------------------
@@ -1067,6 +1118,7 @@ class Runner:
         self.global_spec = DEFAULT_SPEC
         self.pal_seen = {}       # id -> weakref of the palette last seen with this id
         self.rendered = set()    # (slot generation, obj) already rendered
+        self.rendered_names = set()
         self.gen = collections.Counter()
         self.dropped_after = set()   # objects rendered under a config which was discarded since
         self.n_conf = 0
@@ -1088,7 +1140,12 @@ class Runner:
 
     def obj(self, name):
         if name not in self.objs:
-            self.objs[name] = OBJECTS[name][1]()
+            if name in GROUP_OF:          # the members of a group are built together, once per history
+                g = GROUP_OF[name][0]
+                for n, member in zip(GROUP_MEMBERS[g], GROUP_BUILDERS[g]()):
+                    self.objs[n] = member
+            else:
+                self.objs[name] = OBJECTS[name][1]()
         return self.objs[name]
 
     def add(self, res, ctx):
@@ -1169,6 +1226,10 @@ class Runner:
                 if tag + (name,) in self.rendered:
                     self.hits['enum-table-rerendered-under-same-config'] += 1
             self.rendered.add(tag + (name,))
+            if name in GROUP_OF and any(n != name and n in self.rendered_names
+                                        for n in GROUP_MEMBERS[GROUP_OF[name][0]]):
+                self.hits['table-sharing-format-object-with-rendered-table'] += 1
+            self.rendered_names.add(name)
             self.check(name, conf, spec, route)
         elif op == 'drop':
             _, slot = st
@@ -1351,6 +1412,11 @@ def gen_history(rng):
     pool = rng.sample(OBJECT_NAMES, 2) + [rng.choice(ENUM_OBJECTS)]
     if rng.random() < 0.5:
         pool.append(rng.choice(ENUM_OBJECTS))
+    if rng.random() < 0.15:
+        pool.append(rng.choice(sorted(GROUP_OF)))
+    for name in list(pool):             # a table sharing a format object comes with a sibling
+        if name in GROUP_OF:
+            pool.append(rng.choice([n for n in GROUP_MEMBERS[GROUP_OF[name][0]] if n != name]))
     have_global = False
     while len(steps) < n:
         r = rng.random()
@@ -1399,6 +1465,26 @@ def scripted_history(name, i):
     ]
 
 
+def shared_format_histories(tier):
+    """tables built from another table's format object, rendered in every order of the group's members
+    (each request is compared with the member of a fresh group, none of whose members was rendered)"""
+    out = []
+    specs = [{'init': {}, 'no_color': False},
+             {'init': {'TEXT': 'CYAN', 'RECORD.NUMBER': '123', 'TABLE.BORDER': 'g7'}, 'no_color': False}]
+    k = 0
+    for g, members in GROUP_MEMBERS.items():
+        for order in itertools.permutations(members):
+            for spec in (specs if tier != 'quick' else specs[k % 2:k % 2 + 1]):
+                route = ROUTES['table'][k % len(ROUTES['table'])]
+                steps = [['conf', 0, spec]] + ([['global', 0]] if route == 'global' else [])
+                steps += [['render', 0, n, route] for n in order]
+                # once more, under another configuration, in reverse order
+                steps += [['conf', 1, specs[(k + 1) % 2]]] + [['render', 1, n, 'conf'] for n in reversed(order)]
+                out.append(steps)
+                k += 1
+    return out
+
+
 def all_tasks(tier, seed):
     tasks = []
     # (A) exhaustive grid: every object x every grid configuration x every route
@@ -1418,11 +1504,12 @@ def all_tasks(tier, seed):
     for i, name in enumerate(OBJECT_NAMES):
         tasks.append(scripted_history(name, i))
     churn_rounds = 100 if tier == 'quick' else 500
-    for i, name in enumerate(ENUM_OBJECTS):
+    for i, name in enumerate(CHURN_OBJECTS):
         for route in (('conf', 'palette_obj') if tier == 'quick' else ('conf', 'palette_obj', 'palette_cls')):
             tasks.append([['churn', name, route, i, churn_rounds if route != 'palette_cls' else churn_rounds // 2]])
-    for i, name in enumerate(ENUM_OBJECTS):
+    for i, name in enumerate(CHURN_OBJECTS):
         tasks.append([['churn_nocolor', name, i, churn_rounds]])
+    tasks.extend(shared_format_histories(tier))
     tasks.append([['churn', 'table_plain', 'palette_obj', 1, 120]])
     tasks.append([['churn', 'pp_py', 'conf', 2, 60]])
     n_curated = len(tasks) - n_grid
@@ -1470,6 +1557,7 @@ REQUIRED_REACH = [
     'global-config-replaced',
     'same-result-consumed-twice',
     'nocolor-requested-twice',
+    'table-sharing-format-object-with-rendered-table',
 ]
 
 
